@@ -337,7 +337,18 @@ class Gen(object):
                 return ['a', dt, list(shape), pairs, r.choice(['F', 'S', 'S', 'R'])]
             return ['a', dt, list(shape), pairs]
 
+        homog = None
+        if r.random() < 0.15:
+            # a list whose elements are all NumPy scalars of one (narrow) type: np.array() of it keeps that type
+            pr = [V.frac_to_pair(v) for v in vals]
+            if all(abs(p_[0]).bit_length() <= 24 and -100 < p_[1] < 100 for p_ in pr) and r.random() < 0.6:
+                homog = 'float32'
+            else:
+                homog = self.exotic_dtype(vals)
+
         def nest(flat, sh, kindc):
+            if len(sh) == 1 and homog is not None:
+                return [kindc, [['n', homog] + list(V.frac_to_pair(v)) for v in flat]]
             if len(sh) == 1:
                 return [kindc, [self.scalar_spec(v, allow_str=False) for v in flat]]
             step = len(flat) // sh[0]
@@ -1596,6 +1607,11 @@ class Gen(object):
             e = r.choice([r.randint(50, 70), r.randint(60, 66), r.randint(70, 1000)])
             n = sign * ((1 << e) + r.choice([-1, 0, 1, r.randrange(1 << min(e, 60))]))
             val = ['i', n]
+        elif k < 0.62:
+            # floats whose SCALED value sits exactly on, or one ulp beside, a machine-integer mark
+            e = r.choice([62, 63, 63, 63, 64, 64, 53])
+            m = r.choice([1 << 52, 1 << 52, (1 << 52) + 1, (1 << 53) - 1])
+            val = ['f', sign * m, e - 52 - fmt[2]]
         elif k < 0.8:
             val = ['f', sign * r.randrange(1, 1 << 53), r.randint(0, 960)]
         else:
